@@ -17,14 +17,43 @@ import sys
 import time
 
 VERIF = os.path.dirname(os.path.dirname(os.path.abspath(__file__)))
-REPO = "/repo"
+# The checks run against /repo.  For experiments (seeded mutations in a scratch worktree) VERIF_REPO=<dir> points
+# the harness at another checkout: the harness crate is copied with rewritten path dependencies and gets its own
+# target, run and evidence directories under .cache/alt/<key>/ so that nothing of the real run is disturbed.
+REPO = os.path.abspath(os.environ.get("VERIF_REPO", "/repo"))
+ALT = None if REPO == "/repo" else re.sub(r"[^A-Za-z0-9]+", "_", REPO).strip("_")
 CACHE = os.path.join(VERIF, ".cache")
+ALTROOT = os.path.join(CACHE, "alt", ALT) if ALT else None
 COQ = os.path.join(VERIF, "coq")
 OCAML = os.path.join(VERIF, "ocaml")
-HARNESS = os.path.join(VERIF, "harness")
-TARGET = os.path.join(CACHE, "target")
+HARNESS_SRC = os.path.join(VERIF, "harness")
+HARNESS = os.path.join(ALTROOT, "harness") if ALT else HARNESS_SRC
+TARGET = os.path.join(ALTROOT, "target") if ALT else os.path.join(CACHE, "target")
 OCAMLBUILD = os.path.join(CACHE, "ocamlbuild")
+EVIDENCE_DIR = os.path.join(ALTROOT, "evidence") if ALT else os.path.join(VERIF, "evidence")
 GUARD = "vhdl_ls_rust_hdl_verif"
+
+
+def _sync_alt_harness():
+    """Copy harness/ to the alternative location with path dependencies rewritten to REPO."""
+    import shutil
+    os.makedirs(HARNESS, exist_ok=True)
+    for root, dirs, files in os.walk(HARNESS_SRC):
+        rel = os.path.relpath(root, HARNESS_SRC)
+        if rel.startswith("target"):
+            continue
+        os.makedirs(os.path.join(HARNESS, rel), exist_ok=True)
+        for f in files:
+            src = os.path.join(root, f)
+            dst = os.path.join(HARNESS, rel, f)
+            data = open(src, "rb").read()
+            if f == "Cargo.toml":
+                data = data.replace(b'"/repo/', ('"%s/' % REPO).encode())
+            if f == "config.toml":
+                data = re.sub(rb'target-dir = "[^"]*"', ('target-dir = "%s"' % TARGET).encode(), data)
+            if not os.path.exists(dst) or open(dst, "rb").read() != data:
+                open(dst, "wb").write(data)
+    shutil.copy(os.path.join(REPO, "Cargo.lock"), os.path.join(HARNESS, "Cargo.lock"))
 
 ALLOWED_AXIOMS = {
     # axioms declared by the standard library that a property file may depend on; each use is
@@ -68,13 +97,13 @@ def seed():
 
 
 def rundir(prop):
-    d = os.path.join(CACHE, "run", prop)
+    d = os.path.join(ALTROOT if ALT else CACHE, "run", prop)
     os.makedirs(d, exist_ok=True)
     return d
 
 
 def replaydir():
-    d = os.path.join(CACHE, "replay")
+    d = os.path.join(ALTROOT if ALT else CACHE, "replay")
     os.makedirs(d, exist_ok=True)
     return d
 
@@ -115,7 +144,9 @@ def coq_files():
         for f in files:
             if f.endswith(".v"):
                 res.append(os.path.join(root, f))
-    res.append(os.path.join(OCAML, "Extract.v"))
+    ex = os.path.join(OCAML, "extract")
+    if os.path.isdir(ex):
+        res += [os.path.join(ex, f) for f in os.listdir(ex) if f.endswith(".v")]
     return sorted(res)
 
 
@@ -214,13 +245,15 @@ def coq_eval_bool(prop, tag, preamble, body_bool, timeout=900):
 # ----------------------------------------------------------------------------------------------
 def ocaml_build(exe, timeout=1800):
     rc, out = run(["./build.sh", exe], cwd=OCAML, timeout=timeout)
-    return rc == 0, out, os.path.join(OCAMLBUILD, exe + ".native")
+    return rc == 0, out, os.path.join(OCAMLBUILD, exe, exe + ".native")
 
 
 def harness_build(bin_name, timeout=3000):
     """Build one harness binary against /repo's current working tree with the hooks enabled."""
     env = env_base()
     env["RUSTFLAGS"] = "--cfg %s --cap-lints allow" % GUARD
+    if ALT:
+        _sync_alt_harness()
     lock_src = os.path.join(REPO, "Cargo.lock")
     lock_dst = os.path.join(HARNESS, "Cargo.lock")
     if not os.path.exists(lock_dst):
@@ -317,8 +350,8 @@ class Result:
             "known_findings_reproduced": self.known,
             "repo_head": repo_head(),
         }
-        os.makedirs(os.path.join(VERIF, "evidence"), exist_ok=True)
-        with open(os.path.join(VERIF, "evidence", self.prop + ".json"), "w") as f:
+        os.makedirs(EVIDENCE_DIR, exist_ok=True)
+        with open(os.path.join(EVIDENCE_DIR, self.prop + ".json"), "w") as f:
             json.dump(ev, f, indent=1, ensure_ascii=False)
             f.write("\n")
         for k in self.known:
